@@ -56,6 +56,9 @@ def crash_sig(stderr, rc, crashline):
 
 
 # ---------------------------------------------------------------- running workers
+SWEEPMAP = {}     # run seed -> (base seed, placement index), filled from the workers' SW lines
+
+
 class Result:
     def __init__(self):
         self.runs = 0
@@ -77,7 +80,9 @@ def parse_stream(out):
     recs, ctr, cur, crashline, done = [], {}, None, None, False
     viols = []
     for line in out.splitlines():
-        if line.startswith("START "):
+        if line.startswith("SW "):
+            f = line.split(); SWEEPMAP[int(f[1])] = (int(f[2]), int(f[3]))
+        elif line.startswith("START "):
             cur = int(line.split()[1]); viols = []
         elif line.startswith("V "):
             parts = line.split(" ", 4)
@@ -104,6 +109,7 @@ def run_chunks(exe, job, base, total, res, deadline, chunk=None):
     """fan seeds mix64(base,i), i in [0,total), over NCPU worker processes"""
     if chunk is None:
         chunk = max(20, min(2000, total // (NCPU * 4) or 1))
+        if job.get("sweep"): chunk = max(2, min(50, total // (NCPU * 4) or 1))
     q = queue.Queue()
     for i0 in range(0, total, chunk):
         q.put((i0, min(total, i0 + chunk)))
@@ -117,7 +123,7 @@ def run_chunks(exe, job, base, total, res, deadline, chunk=None):
             while i0 < i1:
                 if time.time() > deadline:
                     return
-                cmd = [exe, "run", job["engine"], str(base), str(i0), str(i1), "--cfg", job.get("cfg", "")]
+                cmd = [exe, "sweep" if job.get("sweep") else "run", job["engine"], str(base), str(i0), str(i1), "--cfg", job.get("cfg", "")]
                 if job.get("only"):
                     cmd += ["--only", job["only"]]
                 try:
@@ -146,7 +152,12 @@ def run_chunks(exe, job, base, total, res, deadline, chunk=None):
                         res.crashes.append(dict(seed=cur, sig=sig, msg=msg, job=job, stderr=err[-2500:]))
                 if done:
                     break
-                i0 = i0 + len(recs) + 1      # skip the seed that killed the worker
+                if job.get("sweep"):
+                    # a placement killed the worker: count completed base programs and skip the one in flight
+                    nb = len(set(SWEEPMAP.get(r["seed"], (None, 0))[0] for r in recs))
+                    i0 = i0 + max(1, nb)
+                else:
+                    i0 = i0 + len(recs) + 1      # skip the seed that killed the worker
 
     th = [threading.Thread(target=worker) for _ in range(NCPU)]
     for t in th: t.start()
@@ -155,7 +166,12 @@ def run_chunks(exe, job, base, total, res, deadline, chunk=None):
 
 # ---------------------------------------------------------------- replay / gate / minimise
 def gen_plan(exe, job, seed):
-    r = sh([exe, "gen", job["engine"], str(seed), "--cfg", job.get("cfg", "")])
+    if job.get("sweep"):
+        if seed not in SWEEPMAP: return None
+        b, k = SWEEPMAP[seed]
+        r = sh([exe, "sweepgen", job["engine"], str(b), str(k), "--cfg", job.get("cfg", "")])
+    else:
+        r = sh([exe, "gen", job["engine"], str(seed), "--cfg", job.get("cfg", "")])
     if r.returncode != 0 or not r.stdout.startswith("PLAN"):
         return None
     return r.stdout
@@ -271,7 +287,7 @@ def check(prop, tier):
         jb = int(hashlib.sha256(("%d/%s/%d" % (base_seed, prop, ji)).encode()).hexdigest()[:15], 16)
         tj = time.time()
         run_chunks(exes[job["variant"]], job, jb, n, res, deadline)
-        per_job.append(dict(engine=job["engine"], cfg=job.get("cfg", ""), variant=job["variant"], requested=n,
+        per_job.append(dict(engine=job["engine"], cfg=job.get("cfg", ""), variant=job["variant"], requested=n, mode="single-fault sweep (requested = base programs)" if job.get("sweep") else "random",
                             runs=res.runs, wall_s=round(time.time() - tj, 2), crashes=len(res.crashes),
                             violations=len(res.viol), budget_capped=res.budget))
         res_all.append((job, res))
